@@ -919,3 +919,104 @@ func seeThrough(P *Program, v ssa.Value, outer callEnv) (ssa.Value, callEnv, boo
 	}
 	return ret, env, true
 }
+
+// slotAddrOf: the element address a store writes to — `xs[i] = v` directly, or
+// through a pointer variable that was set exactly once, to the address of an
+// element (`slot := &xs[i]` before a goroutine is started, `*slot = v` in it).
+func slotAddrOf(addr ssa.Value) *ssa.IndexAddr {
+	for d := 0; d < 4; d++ {
+		if ia, ok := addr.(*ssa.IndexAddr); ok {
+			return ia
+		}
+		u, ok := addr.(*ssa.UnOp)
+		if !ok || u.Op != token.MUL {
+			return nil
+		}
+		al, ok := resolveCell(u.X).(*ssa.Alloc)
+		if !ok {
+			return nil
+		}
+		sts := storesToAlloc(al)
+		if len(sts) != 1 {
+			return nil
+		}
+		addr = sts[0].Val
+	}
+	return nil
+}
+
+// effectivelyConstGlobal: a package-level variable of the module that is
+// written by its package's initialiser only and of which the rest of the
+// program only ever reads — elements of a table (map lookup, index, range,
+// len) or the value handed to a read-only library function. Such a variable is
+// a constant table for every run of the program.
+func effectivelyConstGlobal(P *Program, g *ssa.Global) bool {
+	key := "constglobal:" + g.String()
+	if v, ok := P.cache[key]; ok {
+		return v.(bool)
+	}
+	readOnlyUse := func(v ssa.Value) bool {
+		for _, r := range refs(v) {
+			switch x := r.(type) {
+			case *ssa.Lookup:
+				if x.X != v {
+					return false
+				}
+			case *ssa.Index:
+			case *ssa.Range:
+			case *ssa.IndexAddr:
+				for _, rr := range refs(x) {
+					if u, ok := rr.(*ssa.UnOp); !ok || u.Op != token.MUL {
+						return false
+					}
+				}
+			case *ssa.Call:
+				if b, ok := x.Call.Value.(*ssa.Builtin); ok && (b.Name() == "len" || b.Name() == "cap") {
+					continue
+				}
+				f := calleeObj(&x.Call)
+				if f == nil || f.Pkg() == nil {
+					return false
+				}
+				switch f.Pkg().Path() + "." + f.Name() {
+				case "slices.Contains", "slices.Index", "golang.org/x/exp/slices.Contains", "golang.org/x/exp/slices.Index", "strings.Join":
+				default:
+					return false
+				}
+			case *ssa.DebugRef:
+			default:
+				return false
+			}
+		}
+		return true
+	}
+	ok := true
+	for _, fn := range P.Funcs {
+		if !ok {
+			break
+		}
+		isInit := fn.Synthetic != "" && fn.Name() == "init" && fn.Pkg == g.Pkg
+		eachInstr(fn, func(_ *ssa.BasicBlock, _ int, in ssa.Instruction) {
+			if !ok {
+				return
+			}
+			for _, op := range in.Operands(nil) {
+				if op == nil || *op != ssa.Value(g) {
+					continue
+				}
+				if isInit {
+					continue
+				}
+				u, isLoad := in.(*ssa.UnOp)
+				if !isLoad || u.Op != token.MUL || !readOnlyUse(u) {
+					ok = false
+				}
+			}
+		})
+	}
+	if P.cache == nil {
+		P.cache = map[string]any{}
+	}
+	P.cache[key] = ok
+	return ok
+}
